@@ -347,7 +347,8 @@ func (op LinearQuantizer) Op_instruction_verilog_extra_modules(arch *Arch, flavo
 	result += "\n"
 	result += "endmodule\n"
 
-	moduleNames := []string{moduleName}
+	_ = moduleName
+	moduleNames := []string{op.lqName} // the key is the module, not its kind: other opcodes emit an "adder" too
 	moduleCodes := []string{result}
 
 	if op.opType == LQDIV || op.opType == LQMULT {
@@ -374,7 +375,8 @@ func (op LinearQuantizer) Op_instruction_verilog_extra_modules(arch *Arch, flavo
 		}
 		correction += "\n"
 		correction += "endmodule\n"
-		moduleNames = append(moduleNames, correctionName)
+		_ = correctionName
+		moduleNames = append(moduleNames, op.lqName+"_correction")
 		moduleCodes = append(moduleCodes, correction)
 	}
 
